@@ -36,7 +36,8 @@ CONSTANT Dev      \* names of known deviations that are reported, not rejected
 tr_QIntStart == <<0, 50000000, 0>>
 tr_QIntMax   == <<0, 99999999, 9999999>>
 tr_QDigits   == <<53, 48, 48, 48, 48, 48, 48, 48, 48, 48, 48, 48, 48, 48, 48>>
-tr_Dev == {"D_inner_cleanup"}
+tr_Dev == {"D_inner_cleanup", "D_abort_leak"}
+tr_NoDev == {}
 
 Doc == JsonDeserialize(IOEnv.TRACE_FILE)
 Traces == Doc.traces
@@ -68,7 +69,7 @@ InitMon(t) ==
      partial |-> {},
      lock |-> 0,
      call |-> [c \in Clients(t) |-> NoCall],
-     tx |-> [c \in Clients(t) |-> [d |-> 0, w |-> <<>>]],
+     tx |-> [c \in Clients(t) |-> [d |-> 0, w |-> <<>>, made |-> {}]],
      now |-> 0,
      known |-> {}]
 
@@ -81,6 +82,13 @@ HasKey(cl) == cl.op \in {"get", "contains", "set", "add", "touch", "incr", "pop"
 MissRet(cl) == IF cl.op = "get" THEN R(cl.a.mk, <<>>)
                ELSE IF cl.op = "contains" THEN RFalse
                ELSE R("no-such-return", <<>>)
+
+\* every call record has every field, so the monitor is total whatever the
+\* order of events in a (possibly broken) execution
+NewCall(op, a, now, st, db) ==
+    [op |-> op, a |-> a, now |-> now, st |-> st, exp |-> RNone, cand |-> {}, touched |-> {},
+     pb |-> <<>>, count |-> 0, busy |-> 0, fin |-> FALSE, nochange |-> TRUE,
+     ukeys |-> KeysOf(db.rows), ikeys |-> KeysOf(db.rows)]
 
 V(ok, Mn, why) == [ok |-> ok, M |-> Mn, why |-> why]
 Fail(Mo, why) == V(FALSE, Mo, why)
@@ -133,22 +141,19 @@ OnCall(Mo, e) ==
     LET c == e.c IN
     IF Mo.call[c].op # "none" THEN Fail(Mo, "harness: call while another call of the client is in flight")
     ELSE IF e.op = "txbegin"
-    THEN V(TRUE, [Mo EXCEPT !.call[c] = [op |-> "txbegin", st |-> "open", now |-> e.now],
-                            !.tx[c] = [d |-> @.d + 1, w |-> IF @.d = 0 THEN Mo.db ELSE @.w]], "")
+    THEN V(TRUE, [Mo EXCEPT !.call[c] = NewCall("txbegin", e.a, e.now, "open", Mo.db),
+                            !.tx[c] = [d |-> @.d + 1, w |-> IF @.d = 0 THEN Mo.db ELSE @.w, made |-> IF @.d = 0 THEN {} ELSE @.made]], "")
     ELSE IF e.op = "txend"
-    THEN V(TRUE, [Mo EXCEPT !.call[c] = [op |-> "txend", st |-> "open", now |-> e.now]], "")
+    THEN V(TRUE, [Mo EXCEPT !.call[c] = NewCall("txend", e.a, e.now, "open", Mo.db)], "")
     ELSE IF e.op = "txraise"
-    THEN V(TRUE, [Mo EXCEPT !.call[c] = [op |-> "txraise", st |-> "open", now |-> e.now]], "")
+    THEN V(TRUE, [Mo EXCEPT !.call[c] = NewCall("txraise", e.a, e.now, "open", Mo.db)], "")
     ELSE IF Mo.tx[c].d > 0
     THEN \* a call inside the client's own transaction block: a step on the working copy
          LET cl0 == [op |-> e.op, a |-> e.a, now |-> e.now]
              res == Dispatch(Mo.tx[c].w, cl0)
-         IN V(TRUE, [Mo EXCEPT !.call[c] = [op |-> e.op, a |-> e.a, now |-> e.now, st |-> "inner",
-                                            exp |-> res.ret, pb |-> <<>>],
+         IN V(TRUE, [Mo EXCEPT !.call[c] = [NewCall(e.op, e.a, e.now, "inner", Mo.db) EXCEPT !.exp = res.ret],
                                !.tx[c].w = res.S], "")
-    ELSE LET cl == [op |-> e.op, a |-> e.a, now |-> e.now, st |-> "open", exp |-> RNone,
-                    cand |-> {}, touched |-> {}, pb |-> <<>>, count |-> 0, busy |-> 0, fin |-> FALSE,
-                    nochange |-> TRUE, ukeys |-> KeysOf(Mo.db.rows), ikeys |-> KeysOf(Mo.db.rows)]
+    ELSE LET cl == NewCall(e.op, e.a, e.now, "open", Mo.db)
          IN V(TRUE, [Mo EXCEPT !.call[c] =
                         IF IsLoopOp(e.op) THEN cl ELSE [cl EXCEPT !.cand = {Dispatch(Mo.db, cl).ret}]], "")
 
@@ -177,7 +182,7 @@ OnCommit(Mo, e) ==
             THEN Fail(Mo, "C06 contents committed by the block differ from its operations applied in order")
             ELSE LET r == Publish(Mo, e, Mo.tx[c].w)
                  IN IF ~r.ok THEN r
-                    ELSE V(TRUE, [r.M EXCEPT !.tx[c] = [d |-> 0, w |-> <<>>],
+                    ELSE V(TRUE, [r.M EXCEPT !.tx[c] = [d |-> 0, w |-> <<>>, made |-> {}],
                                              !.call[c].st = "committed"], "")
        ELSE IF cl.op \in {"txend", "txbegin", "txraise"}
        THEN Fail(Mo, "C06 block bookkeeping: commit without an open block")
@@ -225,9 +230,11 @@ OnRollback(Mo, e) ==
     LET c == e.c
         cl == Mo.call[c]
     IN IF cl.op = "none" THEN V(TRUE, [Mo EXCEPT !.lock = 0], "")
+       ELSE IF Mo.tx[c].d > 0 /\ cl.op # "txraise"
+       THEN Fail(Mo, "C06 ROLLBACK inside a transaction block that did not raise (an inner call or block rolled back on its own)")
        ELSE IF Mo.tx[c].d > 0
        THEN \* the whole block is undone, whatever its depth
-            V(TRUE, [Mo EXCEPT !.tx[c] = [d |-> 0, w |-> <<>>], !.lock = 0,
+            V(TRUE, [Mo EXCEPT !.tx[c] = [d |-> 0, w |-> <<>>, made |-> @.made], !.lock = 0,
                                !.call[c].st = "rolled"], "")
        ELSE IF IsLoopOp(cl.op)
        THEN V(TRUE, [Mo EXCEPT !.lock = 0, !.call[c].st = "rolled",
@@ -250,7 +257,7 @@ OnRet(Mo, e) ==
        ELSE IF cl.op = "txbegin"
        THEN IF e.ret.k = "none" THEN V(TRUE, Mq, "")
             ELSE IF e.ret.k = "Timeout"
-            THEN V(TRUE, [Mq EXCEPT !.tx[c] = [d |-> IF @.d > 0 THEN @.d - 1 ELSE 0, w |-> @.w]], "")
+            THEN V(TRUE, [Mq EXCEPT !.tx[c] = [d |-> IF @.d > 0 THEN @.d - 1 ELSE 0, w |-> @.w, made |-> @.made]], "")
             ELSE Fail(Mo, "C06 transact() failed with " \o e.ret.k)
        ELSE IF cl.op = "txend"
        THEN IF Mo.tx[c].d > 1
@@ -260,7 +267,11 @@ OnRet(Mo, e) ==
             ELSE IF cl.st = "committed" /\ e.ret.k = "none" THEN done1
             ELSE Fail(Mo, "C06 the outermost block ended without publishing its effects with one COMMIT")
        ELSE IF cl.op = "txraise"
-       THEN IF cl.st = "rolled" /\ e.ret.k = "aborted" THEN done1
+       THEN IF cl.st = "rolled" /\ e.ret.k = "aborted"
+            THEN \* known finding: value files written inside the aborted block are left behind
+                 IF "D_abort_leak" \in Dev /\ ((files \ Mo.refs) \cap Mo.tx[c].made) # {}
+                 THEN V(TRUE, [Mq EXCEPT !.known = @ \cup {"D_abort_leak"}], "KNOWN")
+                 ELSE done1
             ELSE Fail(Mo, "C06 a block that raised was not rolled back")
        ELSE IF cl.st = "inner"
        THEN IF e.ret = cl.exp THEN V(TRUE, Mq, "")
@@ -302,7 +313,11 @@ OnRet(Mo, e) ==
 
 OnFile(Mo, e) ==
     IF e.ev = "fcreate"
-    THEN IF e.ok = 1 THEN V(TRUE, [Mo EXCEPT !.partial = @ \cup {e.f}], "") ELSE V(TRUE, Mo, "")
+    THEN IF e.ok = 1
+         THEN V(TRUE, [Mo EXCEPT !.partial = @ \cup {e.f},
+                                 !.tx = IF e.c \in DOMAIN Mo.tx /\ Mo.tx[e.c].d > 0
+                                        THEN [@ EXCEPT ![e.c].made = @ \cup {e.f}] ELSE @], "")
+         ELSE V(TRUE, Mo, "")
     ELSE IF e.ev = "fwrite" THEN V(TRUE, Mo, "")
     ELSE IF e.ev = "fclose"
     THEN V(TRUE, [Mo EXCEPT !.partial = @ \ {e.f},
@@ -339,7 +354,10 @@ MStep(Mo, e) ==
       [] e.ev = "begin"    -> IF e.ok = 1
                               THEN IF Mo.lock # 0 /\ e.kind # "deferred"
                                    THEN Fail(Mo, "environment: two holders of the write lock")
-                                   ELSE V(TRUE, [Mo EXCEPT !.lock = IF e.kind = "deferred" THEN @ ELSE e.c], "")
+                                   \* the block's private view starts from the contents committed
+                                   \* when it obtains the lock
+                                   ELSE V(TRUE, [Mo EXCEPT !.lock = IF e.kind = "deferred" THEN @ ELSE e.c,
+                                                           !.tx[e.c].w = IF Mo.tx[e.c].d = 1 THEN Mo.db ELSE @], "")
                               ELSE V(TRUE, Mo, "")
       [] e.ev = "commit"   -> OnCommit(Mo, e)
       [] e.ev = "awrite"   -> OnCommit(Mo, e)
